@@ -162,6 +162,8 @@ pub struct RunResult {
     pub ver: Vec<String>,
     pub idx: Vec<String>,
     pub stderr: String,
+    pub t0: String,
+    pub t1: String,
 }
 
 fn client_bin() -> String {
@@ -240,7 +242,51 @@ pub fn run_client(spec: &RunSpec, respond: &mut dyn FnMut(usize, &[u8]) -> Vec<u
             }
         }
     }
-    RunResult { requests, responses, exit, out, ver, idx, stderr }
+    RunResult { requests, responses, exit, out, ver, idx, stderr, t0: "0".into(), t1: "0".into() }
+}
+
+fn now_s() -> String {
+    let d = std::time::SystemTime::now().duration_since(std::time::UNIX_EPOCH).unwrap();
+    format!("{}.{:09}", d.as_secs(), d.subsec_nanos())
+}
+
+/// run the real client against a server that is already listening on `port` (no responder here)
+pub fn run_client_to(spec: &RunSpec, port: u16) -> RunResult {
+    let mut cmd = Command::new(client_bin());
+    cmd.arg("127.0.0.1").arg(port.to_string()).arg("-p").arg(if spec.ver == 'I' { "13" } else { "0" });
+    cmd.arg("-z").arg("-f").arg("%s.%f").arg("-t").arg("3").arg("-v");
+    if spec.nreq != 1 {
+        cmd.arg("-n").arg(spec.nreq.to_string());
+    }
+    if let Some((b64, k)) = &spec.key {
+        let s = if *b64 { data_encoding::BASE64.encode(k) } else { hex(k) };
+        cmd.arg("-k").arg(s);
+    }
+    cmd.env("RUST_BACKTRACE", "0");
+    cmd.stdin(Stdio::null()).stdout(Stdio::piped()).stderr(Stdio::piped());
+    let t0 = now_s();
+    let outp = cmd.output().expect("run client");
+    let t1 = now_s();
+    let exit = outp.status.code().unwrap_or(-1);
+    let stdout = String::from_utf8_lossy(&outp.stdout).to_string();
+    let stderr = String::from_utf8_lossy(&outp.stderr).to_string();
+    let mut out = vec![];
+    let mut ver = vec![];
+    let mut idx = vec![];
+    for l in stdout.lines() {
+        let l = l.trim();
+        if l.chars().next().map(|c| c.is_ascii_digit()).unwrap_or(false) && l.contains('.') && l.chars().all(|c| c.is_ascii_digit() || c == '.') {
+            out.push(l.to_string());
+        }
+    }
+    for l in stderr.lines() {
+        if let Some(p) = l.find("verified=") {
+            let rest = &l[p + 9..];
+            ver.push(rest.split(' ').next().unwrap_or("?").to_string());
+            idx.push(l.split("merkle_index=").nth(1).unwrap_or("?").trim_end_matches(')').to_string());
+        }
+    }
+    RunResult { requests: vec![], responses: vec![], exit, out, ver, idx, stderr, t0, t1 }
 }
 
 fn join(v: &[String]) -> String {
